@@ -488,3 +488,31 @@ Example removed_backend_never_marked_nonvacuous :
   c_list (cget (fst (hrun ops2)) 0) = [1%nat; 2%nat] /\
   b_fails (hget (s_heap (fst (hrun ops2))) 2) = 0.
 Proof. vm_compute. repeat split. Qed.
+
+
+(* ------------------------------------------------------------------ *)
+(** 12. LeastLoaded picks a least-loaded eligible backend: whatever the history
+    and the metric — open connections, active requests, or the peak connection
+    time cost [(connections + 1) * rtt] of [peak_ewma_connection] — no
+    candidate of the selection has a smaller measure than the backend returned
+    (and by [selected_is_eligible] it is one of the candidates). *)
+Theorem least_loaded_picks_minimum :
+  forall (ops : list op) (c : nat) (key : option N) (m : metric) (h : nat),
+    let s := run_ops init ops in
+    c_lb (cget s c) = PLeast m ->
+    In h (picks (snd (select s c key))) ->
+    forall x, In x (candidates s (c_list (cget s c))) ->
+      measure m (bk s h) <= measure m (bk s x).
+Proof. intros ops c key m h s. apply least_loaded_minimal_lemma. Qed.
+
+Example least_loaded_picks_minimum_nonvacuous :
+  (* two backends, one connection each; backend 0 has been seen taking 150 ms to connect:
+     cost 2 * 150 ms against 2 * 50 ms, the second is picked; by connections alone it is a tie, the first wins *)
+  let ops := [ OAdd 0 0 0 None None false; OAdd 0 1 1 None None false; OInc 0; OInc 1; ORtt 0 150000000 ] in
+  picks (snd (select (run_ops init (ops ++ [OPolicy 0 KLeast MTime 0])) 0 None)) = [1%nat] /\
+  picks (snd (select (run_ops init (ops ++ [OPolicy 0 KLeast MConn 0])) 0 None)) = [0%nat] /\
+  (* a third connection on backend 1 makes its cost 3 * 50 ms = 150 ms against 300 ms: still picked;
+     a lower observation never lowers the peak *)
+  picks (snd (select (run_ops init (ops ++ [OInc 1; ORtt 0 1; OPolicy 0 KLeast MTime 0])) 0 None)) = [1%nat] /\
+  measure MTime (bk (run_ops init (ops ++ [ORtt 0 1])) 0) = 300000000.
+Proof. vm_compute. repeat split. Qed.
